@@ -16,6 +16,7 @@
     kept as comment blocks in their sections and are covered by the correspondence run, not by proof.
 -/
 import BufrModel.Lemmas.Query
+import BufrModel.Lemmas.QueryEval
 namespace Bufr
 open Bufr.Query Bufr.PathLang Bufr.C16
 
@@ -205,25 +206,21 @@ example : Spec.pickSel (.idx 1) [10, 20, 30] = [20] := by decide
 
 /-! ### query = evaluation over the nested JSON
 
-  FULL STATEMENT (not proved; checked case by case by the correspondence run: driver field `spec` against `q`
-  on every child/attribute query, ~3700 per quick run, and by the oracle on the implementation):
+  For every path of child (`/`) and attribute (`.`) steps with slices of the path language, every node tree and
+  every flat value list: filtering the tree (`processOne`) and reading the values (`valuesOf`) gives exactly what
+  `Spec.evalComps` computes on the nested JSON rendering of the tree — the same values, the same nesting, the same
+  error.  Hypotheses: the rendering succeeds (`renderNested o tree = .ok js`) and the decidable shape condition
+  `repsOKList o tree` (every replication node holds `n_repeats * n_members` members, `n_repeats` the number the
+  renderer uses) — established by the wiring pass (`C16_wire_shape`), evaluated by the driver (`shape_ok`).
+  Proof (`Lemmas/QueryEval.lean`): induction over the tree with the path universally quantified (`evalOK_all`);
+  `selectRun_eval` = one step over a list of candidates (slice, document order: `filterEnt_eq`), `rep_eval` = the
+  replication envelope (`blocks` of the model = `chunks` of the renderer under the shape condition),
+  `concat_eval` / `envelope_eval` = "collect the nodes, then read the values" against "evaluate dict by dict"
+  (equal because under these hypotheses the only possible failure is `QueryError`, `evalAt_qerr`). -/
 
-    C16_query_eq_eval (o : SubsetOut) (tree : List Node) (js : List NJ) (comps : List Comp)
-        (hr : renderNested o tree = .ok js) (hshape : repsOKList o tree = true)
-        (hp : Spec.childAttrOnly comps = true) (hs : ∀ c ∈ comps, Spec.sliceOK c.slice = true) :
-        ((processOne o.descs tree comps).bind (valuesOf o.vals)).toOption = (Spec.evalComps js comps).toOption
-
-  and, for the whole message, `query m p` against `Spec.evalPath (nested JSON per subset) (selected subsets) p.comps`.
-  Proved below: the first stage (one step from the top level, every slice of the path language), with the
-  selection expressed by the specification's own `pickSel`.  MISSING: the induction over the remaining steps (the
-  continuation of a selected node is the evaluation of the rest of the path at its rendering), the replication
-  envelope (blocks of `n_members` nodes = the lists the renderer cuts, C09_replication_chunks) and the pointwise
-  link between a node list and its rendering (equal labels, `vals[index]` = the `value` key). -/
-
-/-- first stage of `C16_query_eq_eval`: a one-step child query selects, among the top-level nodes, exactly those
-    whose label is the id, with the slice applied to that list of matches, in document order.
-    MISSING for the full statement: see the section header. -/
-theorem C16_query_eq_eval_partial (ds : List DDesc) (tree : List Node) (c : Comp) (hsep : c.sep = '/')
+/-- first step alone, without any hypothesis on the tree: a one-step child query selects, among the top-level
+    nodes, exactly those whose label is the id, the slice applied to that list of matches, in document order -/
+theorem C16_query_first_step (ds : List DDesc) (tree : List Node) (c : Comp) (hsep : c.sep = '/')
     (hs : Spec.sliceOK c.slice = true) :
     processOne ds tree [c] =
       .ok ((Spec.pickSel c.slice (tree.filter (fun n => nodeLabel ds n = some c.id))).map Hit.node) := by
@@ -231,6 +228,170 @@ theorem C16_query_eq_eval_partial (ds : List DDesc) (tree : List Node) (c : Comp
   intro n _
   have hne : c.sep ≠ '>' := by rw [hsep]; decide
   by_cases h : nodeLabel ds n = some c.id <;> simp [nodeMatch, h, hne]
+
+/-- a path of child and attribute steps with slices of the path language evaluated over nested JSON can only fail
+    with `QueryError` (a step on a dict without the key, a path ending on a dict without `value`) -/
+theorem C16_eval_fails_only_with_query_error (js : List NJ) (comps : List Comp) (hne : comps ≠ [])
+    (hp : Spec.childAttrOnly comps = true) (hs : ∀ c ∈ comps, Spec.sliceOK c.slice = true) (e : Err)
+    (h : Spec.evalComps js comps = .error e) : e = .query := by
+  have hP := pathOK_of comps hp hs
+  cases comps with
+  | nil => exact absurd rfl hne
+  | cons c rest =>
+    rw [evalComps_cons] at h
+    rcases hP.1 c List.mem_cons_self with h' | h'
+    · rw [if_pos h'] at h
+      exact evalSel_qerr rest c (hP.2 c List.mem_cons_self) js (evalAt_qerr rest hP.tail.1 hP.tail.2) e h
+    · rw [if_neg (sep_dot_ne_slash h'), if_pos h'] at h
+      cases h; rfl
+
+/-- the continuation of a selected node is the evaluation of the rest of the path at its rendering: for every node
+    `n` with rendering `x` (as a member, a factor or an attribute) and every non-empty path of child / attribute steps,
+    `filter_for_sub_nodes(n, path)` followed by the value pass = `Spec.evalAt path x` -/
+theorem C16_sub_nodes_eq_eval_at (o : SubsetOut) (n : Node) (x : NJ) (c : Comp) (rest : List Comp)
+    (hr : renderNode o n = .ok x ∨ renderValue o true n = .ok x) (hshape : repsOK1 o n = true)
+    (hp : Spec.childAttrOnly (c :: rest) = true) (hs : ∀ c' ∈ c :: rest, Spec.sliceOK c'.slice = true) :
+    (subNodes o.descs n c rest >>= valuesOf o.vals) = Spec.evalAt (c :: rest) x := by
+  rw [← evalOK_all o n x hr hshape c rest (pathOK_of _ hp hs)]
+  cases subNodes o.descs n c rest <;> rfl
+
+/-- ONE SUBSET, full statement: `process_one_subset` + `create_values_from_nodes` = the evaluation of the path over
+    the nested JSON rendering of the subset (values, nesting — one envelope per replication traversed, one list per
+    repetition with a result — document order, and the error when there is one) -/
+theorem C16_query_eq_eval_subset (o : SubsetOut) (tree : List Node) (js : List NJ) (comps : List Comp)
+    (hr : renderNested o tree = .ok js) (hshape : repsOKList o tree = true)
+    (hp : Spec.childAttrOnly comps = true) (hs : ∀ c ∈ comps, Spec.sliceOK c.slice = true) :
+    (processOne o.descs tree comps >>= valuesOf o.vals) = Spec.evalComps js comps := by
+  rw [← processOne_eval o tree js comps hr hshape (pathOK_of comps hp hs)]
+  cases processOne o.descs tree comps <;> rfl
+
+/-- WHOLE MESSAGE, uncompressed data, full statement: `DataQuerent.query` = `Spec.evalPath` on the nested JSON
+    rendering of the message (`Spec.nestedOf`), over the subsets the `@` selector designates — the same result or the
+    same error.  (`hc`: see `C16_query_eq_eval_compressed*` for compressed data.) -/
+theorem C16_query_eq_eval (m : QMsg) (p : Path) (nested : List (List NJ))
+    (hc : m.compressed = false) (hn : Spec.nestedOf m = .ok nested) (hshape : Spec.shapeOK m = true)
+    (hp : Spec.childAttrOnly p.comps = true) (hs : ∀ c ∈ p.comps, Spec.sliceOK c.slice = true) :
+    query m p = (match subsetIndices p.subset m.outs.length with
+      | .error e => .error e
+      | .ok sel => match Spec.evalPath nested sel p.comps with
+        | .error e => .error e
+        | .ok rs => .ok ⟨rs⟩) := by
+  unfold query
+  cases subsetIndices p.subset m.outs.length with
+  | error e => rfl
+  | ok sel =>
+    simp only [hc, Bool.false_eq_true, if_false]
+    rw [evalPath_eq, mapIdx_congr _ _ sel (fun i _ =>
+      uncompressedSubset_eval m nested p.comps hn hshape (pathOK_of _ hp hs) i)]
+    generalize mapIdx _ sel = x
+    cases x <;> rfl
+
+/-- the message a decoder hands over for compressed data: every subset shares the tree wired from subset 0
+    (the hypothesis `ht` of the theorems on compressed data) -/
+theorem C16_compressed_trees_shared (t : List Desc) (outs : List SubsetOut) (m : QMsg)
+    (h : mkMsg t true outs = .ok m) :
+    m.compressed = true ∧ m.outs = outs ∧
+      (∀ o0, outs[0]? = some o0 → ∃ t0, wire t o0 = .ok t0 ∧ ∀ i, i < m.outs.length → m.trees[i]? = some t0) := by
+  unfold mkMsg wireAll at h
+  simp only [if_true] at h
+  cases outs with
+  | nil =>
+    cases h
+    exact ⟨rfl, rfl, fun o0 h0 => by simp at h0⟩
+  | cons o os =>
+    simp only at h
+    cases hw : wire t o with
+    | error e => rw [hw] at h; cases h
+    | ok ns =>
+      rw [hw] at h
+      cases h
+      refine ⟨rfl, rfl, fun o0 h0 => ?_⟩
+      simp only [List.getElem?_cons_zero, Option.some.injEq] at h0
+      subst h0
+      refine ⟨ns, hw, fun i hi => ?_⟩
+      simp only at hi ⊢
+      rw [List.getElem?_map, List.getElem?_eq_getElem hi]
+      rfl
+
+/-- compressed data, the filtering of the shared tree succeeds (`hh`): exactly the evaluation over the nested JSON,
+    subset by subset (every subset is rendered from the shared tree with its own values) -/
+theorem C16_query_eq_eval_compressed (m : QMsg) (p : Path) (nested : List (List NJ))
+    (t0 : List Node) (o0 : SubsetOut) (hits : List Hit)
+    (hc : m.compressed = true)
+    (ht : ∀ i, i < m.outs.length → m.trees[i]? = some t0) (ho : m.outs[0]? = some o0)
+    (hl : ∀ o ∈ m.outs, o.descs = o0.descs)
+    (hn : Spec.nestedOf m = .ok nested) (hshape : Spec.shapeOK m = true)
+    (hp : Spec.childAttrOnly p.comps = true) (hs : ∀ c ∈ p.comps, Spec.sliceOK c.slice = true)
+    (hh : processOne o0.descs t0 p.comps = .ok hits) :
+    query m p = (match subsetIndices p.subset m.outs.length with
+      | .error e => .error e
+      | .ok sel => match Spec.evalPath nested sel p.comps with
+        | .error e => .error e
+        | .ok rs => .ok ⟨rs⟩) := by
+  have h0 : 0 < m.outs.length := by
+    rcases Nat.lt_or_ge 0 m.outs.length with h | h
+    · exact h
+    · rw [List.getElem?_eq_none h] at ho; cases ho
+  rw [← C16_query_eq_eval { m with compressed := false } p nested rfl hn hshape hp hs]
+  unfold query
+  simp only [hc, if_true, ht 0 h0, ho, hh, Bool.false_eq_true, if_false]
+  cases subsetIndices p.subset m.outs.length with
+  | error e => rfl
+  | ok sel =>
+    simp only
+    rw [mapIdx_congr _ _ sel (fun i _ => C16_compressed_subset_eq m p.comps t0 o0 hits ht hl hh i)]
+
+/-- compressed data in general.  WEAKER than equality in two ways, both forced by the code as it is:
+    (1) `hne`: the selector designates at least one subset — with an empty selection `query_compressed_data` still
+    filters the shared tree and raises when the path fails on it, the evaluation over zero subsets is empty (open
+    finding F16c); (2) `toOption`: the code filters the tree BEFORE it looks up the first selected subset, so when the
+    path fails on the tree AND the first selected subset does not exist the two sides fail with different families
+    (`QueryError` / `IndexError`).  Results agree; a failure on one side is a failure on the other.
+    MISSING for the full statement: equality of the error family, and the empty selection (false at present: F16c). -/
+theorem C16_query_eq_eval_compressed_partial (m : QMsg) (p : Path) (nested : List (List NJ))
+    (t0 : List Node) (o0 : SubsetOut) (sel : List Nat)
+    (hc : m.compressed = true)
+    (ht : ∀ i, i < m.outs.length → m.trees[i]? = some t0) (ho : m.outs[0]? = some o0)
+    (hl : ∀ o ∈ m.outs, o.descs = o0.descs)
+    (hn : Spec.nestedOf m = .ok nested) (hshape : Spec.shapeOK m = true)
+    (hp : Spec.childAttrOnly p.comps = true) (hs : ∀ c ∈ p.comps, Spec.sliceOK c.slice = true)
+    (hsel : subsetIndices p.subset m.outs.length = .ok sel) (hne : sel ≠ []) :
+    (query m p).toOption = ((Spec.evalPath nested sel p.comps).toOption.map QResult.mk) := by
+  have h0 : 0 < m.outs.length := by
+    rcases Nat.lt_or_ge 0 m.outs.length with h | h
+    · exact h
+    · rw [List.getElem?_eq_none h] at ho; cases ho
+  cases hh : processOne o0.descs t0 p.comps with
+  | ok hits =>
+    rw [C16_query_eq_eval_compressed m p nested t0 o0 hits hc ht ho hl hn hshape hp hs hh, hsel]
+    simp only
+    cases Spec.evalPath nested sel p.comps <;> rfl
+  | error e =>
+    have hq : query m p = .error e := by
+      unfold query
+      simp only [hsel, hc, if_true, ht 0 h0, ho, hh]
+    rw [hq]
+    cases sel with
+    | nil => exact absurd rfl hne
+    | cons i rest =>
+      have hi : (specSubset nested p.comps i).toOption = none := by
+        rw [← uncompressedSubset_eval { m with compressed := false } nested p.comps hn hshape (pathOK_of _ hp hs) i]
+        unfold uncompressedSubset
+        simp only
+        cases hoi : m.outs[i]? with
+        | none => rfl
+        | some o =>
+          have hilt : i < m.outs.length := by
+            rcases Nat.lt_or_ge i m.outs.length with h | h
+            · exact h
+            · rw [List.getElem?_eq_none h] at hoi; cases hoi
+          simp only [ht i hilt, hl o (List.mem_of_getElem? hoi), hh]
+          rfl
+      rw [evalPath_eq]
+      simp only [mapIdx]
+      cases hr : specSubset nested p.comps i with
+      | error e' => rfl
+      | ok b => rw [hr] at hi; cases hi
 
 /-! ### the bare id
 
@@ -318,6 +479,72 @@ example : beqRes (run none [c '>' "012001" (.range none none (some (-1)))])
 /-- the hypothesis of `C16_subset_selector` holds here (the unselected query succeeds) and the selector picks subset 1 -/
 example : (run none [c '/' "101000" all, c '.' "031001" (.idx 0)]).toOption.isSome = true := by decide +kernel
 example : subsetIndices (some (.range (some (-1)) none none)) 2 = .ok [1] := by decide
+
+/-! non-vacuity of `C16_query_eq_eval*`: the hypotheses hold on the example message (rendering succeeds, shape
+    condition true, path of child / attribute steps), and both sides of the conclusion evaluate to the expected lists -/
+
+def p3 : List Comp := [c '/' "101000" all, c '/' "012001" (.range none none (some (-1))), c '.' "A12001" (.idx 0)]
+
+def isErr {α : Type} (e : Err) : CM α → Bool
+  | .error e' => e' == e
+  | .ok _ => false
+
+def beqSubs (r : CM (List (Nat × List QV))) (want : List (Nat × List QV)) : Bool :=
+  match r with
+  | .ok q => q.map (·.1) == want.map (·.1) && beqQVs (q.map fun p => QV.list p.2) (want.map fun p => QV.list p.2)
+  | .error _ => false
+
+example : (match msg with
+    | .ok m => !m.compressed && (Spec.nestedOf m).toOption.isSome && Spec.shapeOK m
+    | .error _ => false) = true := by decide +kernel
+example : Spec.childAttrOnly p3 = true ∧ ∀ c' ∈ p3, Spec.sliceOK c'.slice = true := by decide
+example : (match msg with
+    | .ok m => (match Spec.nestedOf m with
+      | .ok nj => beqSubs (Spec.evalPath nj [0, 1] p3) [(0, [.list [.list [.val (.int 5)], .list [.val (.int 6)]]]), (1, [])]
+      | .error _ => false)
+    | .error _ => false) = true := by decide +kernel
+example : beqRes (run none p3) [(0, [.list [.list [.val (.int 5)], .list [.val (.int 6)]]]), (1, [])] = true := by
+  decide +kernel
+/-- a failing path fails on both sides with `QueryError` (`/001001/012001`: a value node has no child nodes) -/
+example : isErr .query (run none [c '/' "001001" all, c '/' "012001" all]) = true := by decide +kernel
+example : (match msg with
+    | .ok m => (match Spec.nestedOf m with
+      | .ok nj => isErr .query (Spec.evalPath nj [0, 1] [c '/' "001001" all, c '/' "012001" all])
+      | .error _ => false)
+    | .error _ => false) = true := by decide +kernel
+/-- `C16_sub_nodes_eq_eval_at` / `C16_query_eq_eval_subset` on the first subset: tree, rendering, shape -/
+example : (match wire T O1 with
+    | .ok tree => (renderNested O1 tree).toOption.isSome && repsOKList O1 tree
+    | .error _ => false) = true := by decide +kernel
+example : (match wire T O1 with
+    | .ok tree => (match renderNested O1 tree with
+      | .ok js => beqQVs ((Spec.evalComps js p3).toOption.getD []) [.list [.list [.val (.int 5)], .list [.val (.int 6)]]]
+      | .error _ => false)
+    | .error _ => false) = true := by decide +kernel
+
+/-- compressed data: two subsets with the same labels and the same replication count sharing one tree -/
+def O1b : SubsetOut := { O1 with vals := [.int 1, .int 2, .int 7, .int 290, .int 8, .int 291, .int 97] }
+def cmsg : CM QMsg := mkMsg T true [O1, O1b]
+
+example : (match cmsg with
+    | .ok m => m.compressed && (Spec.nestedOf m).toOption.isSome && Spec.shapeOK m &&
+        (m.outs.all fun o => o.descs == O1.descs) &&
+        (match m.trees[0]? with
+         | some t0 => (processOne O1.descs t0 p3).toOption.isSome
+         | none => false)
+    | .error _ => false) = true := by decide +kernel
+example : (match cmsg with
+    | .ok m => beqRes (query m { subset := none, comps := p3 })
+        [(0, [.list [.list [.val (.int 5)], .list [.val (.int 6)]]]), (1, [.list [.list [.val (.int 7)], .list [.val (.int 8)]]])]
+    | .error _ => false) = true := by decide +kernel
+example : (cmsg).toOption.isSome = true := by decide +kernel     -- hypothesis of `C16_compressed_trees_shared`
+/-- the hypothesis `sel ≠ []` of `C16_query_eq_eval_compressed_partial`; and the reason for it (F16c): an empty
+    selection with a failing path raises on compressed data, the evaluation over no subset is empty -/
+example : subsetIndices (some (.range (some 1) none none)) 2 = .ok [1] := by decide
+example : (match cmsg with
+    | .ok m => isErr .query (query m { subset := some (.range (some 7) none none), comps := [c '/' "001001" all, c '/' "012001" all] })
+    | .error _ => false) = true := by decide +kernel
+example : Spec.evalPath [] [] [c '/' "001001" all, c '/' "012001" all] = .ok [] := rfl
 end C16ex
 
 
